@@ -155,6 +155,53 @@ def observable(t):
             "own": all(a.lattice is t.lattice for a in t)}
 
 
+PDFFIT_ENTRIES = ("scale", "delta1", "delta2", "sratio", "rcut", "spcgr", "spdiameter", "stepcut", "dcell", "ncell")
+
+
+def attr_failures(before, oa, ob, carried, sgname, clsname):
+    """Differences between the target after a successful read (`oa`) and a new object that read the same source (`ob`).
+
+    `stale-attr:*` keys are used only for the listed situation: the parsed structure does not carry the attribute and the
+    value the target had before the read survived.  `pdffit` is reported per entry.  Anything else gets another key."""
+    out = []
+    prior = {k: v[1] for k, v in before["dict"].items()}
+    for attr in ("title", "xcfg"):
+        if oa[attr] != ob[attr]:
+            survived = attr not in carried and (oa[attr] == prior.get(attr) if attr in prior else oa[attr] == ("absent",))
+            key = ("stale-attr:%s" if survived and attr in prior else "attr-differs:%s") % attr
+            out.append((key, "after the successful read `%s` is %r%s, a new %s reading the same source has %r" % (
+                attr, oa[attr], " (the value it had before; the source carries none)" if key.startswith("stale") else "", clsname, ob[attr]),
+                {"attr": attr, "target": oa[attr], "fresh": ob[attr]}))
+    a, b = oa["pdffit"], ob["pdffit"]
+    if a != b:
+        pa = prior.get("pdffit")
+        pad = pa[1] if pa and pa[0] == "dict" else {}
+        if a[0] == "dict":
+            bd = b[1] if b[0] == "dict" else {}
+            for e in sorted(set(a[1]) | set(bd)):
+                if a[1].get(e) == bd.get(e) and b[0] == "dict":
+                    continue
+                ename = e if e in PDFFIT_ENTRIES else "<extra>"
+                survived = "pdffit" not in carried and pa is not None and pa[0] == "dict" and a[1].get(e) == pad.get(e)
+                if e == "spcgr" and clsname == "PDFFitStructure" and sgname is not None:
+                    key = "spcgr-not-refreshed"
+                    what = "the parser reports space group %r but pdffit['spcgr'] is %s after the read (a new %s has %s)" % (
+                        sgname, a[1].get(e), clsname, bd.get(e))
+                else:
+                    key = ("stale-attr:pdffit:%s" if survived else "attr-differs:pdffit:%s") % ename
+                    what = "after the successful read pdffit[%r] is %s%s, a new %s reading the same source has %s" % (
+                        e, a[1].get(e, "<absent>"), " (the value it had before; the source carries no pdffit)" if survived else "", clsname,
+                        bd.get(e, "<absent>") if b[0] == "dict" else "pdffit = None")
+                out.append((key, what, {"attr": "pdffit", "entry": e, "target": a[1].get(e), "fresh": bd.get(e) if b[0] == "dict" else None}))
+        elif a == ("none",) and "pdffit" not in carried and pa == ("none",):
+            out.append(("stale-attr:pdffit:<none>", "after the successful read pdffit is still None (the value the copy-constructed target had; the source "
+                        "carries no pdffit), a new %s has %r" % (clsname, b), {"attr": "pdffit", "target": a, "fresh": b}))
+        else:
+            out.append(("attr-differs:pdffit", "after the successful read pdffit is %r, a new %s reading the same source has %r" % (a, clsname, b),
+                        {"attr": "pdffit", "target": a, "fresh": b}))
+    return out
+
+
 # ---- prior states -----------------------------------------------------------------------
 
 PDFFIT_TEXT = """title  prior pdffit
@@ -193,7 +240,24 @@ C
 0.1 0.2 0.3 0.5
 """
 
-PRIORS = ["empty", "atoms", "copy-of-other-class", "stale-pdffit", "stale-xcfg", "extra-attrs", "titled"]
+NONP1_CIF = """data_ni
+_symmetry_space_group_name_H-M 'F m -3 m'
+_symmetry_Int_Tables_number 225
+_cell_length_a 3.52
+_cell_length_b 3.52
+_cell_length_c 3.52
+_cell_angle_alpha 90
+_cell_angle_beta 90
+_cell_angle_gamma 90
+loop_
+_atom_site_label
+_atom_site_fract_x
+_atom_site_fract_y
+_atom_site_fract_z
+Ni1 0 0 0
+"""
+
+PRIORS = ["empty", "atoms", "copy-of-other-class", "stale-pdffit", "stale-xcfg", "extra-attrs", "titled", "loaded-nonP1-cif"]
 
 
 def make_prior(kind, clsname):
@@ -214,6 +278,11 @@ def make_prior(kind, clsname):
         t = T()
         with quiet():
             t.readStr(PDFFIT_TEXT, "pdffit")
+        return t
+    if kind == "loaded-nonP1-cif":
+        t = T()
+        with quiet():
+            t.readStr(NONP1_CIF, "cif")
         return t
     if kind == "stale-xcfg":
         t = T()
@@ -288,6 +357,25 @@ def make_sources(ck):
                     out.append(("invalid:%s:%s" % (g, lab), g, bad))
                 lab, bad = rng.choice(corruptions(rng, text, 1))
                 out.append(("invalid:%s:%s:auto" % (g, lab), "auto", bad))
+    # successfully parsed sources with ZERO atoms (not the P_cif None case): must empty a non-empty target like a new object
+    import diffpy.structure as ds
+
+    empty = ds.PDFFitStructure(lattice=ds.Lattice(4, 5, 6, 90, 90, 90), title="no atoms here")
+    for g in outputFormats():
+        with quiet():
+            try:
+                text = empty.writeStr(g)
+                r = parse_separately(g, "str", text, None)
+            except Exception:
+                continue
+        if r[0] == "ok" and len(r[1]) == 0:
+            out.append(("valid:zero-atoms:%s" % g, g, text))
+            out.append(("valid:zero-atoms:%s:auto" % g, "auto", text))
+    for lab, g, text in (("rawxyz-empty", "rawxyz", ""), ("rawxyz-comment", "rawxyz", "# nothing\n"), ("xyz-zero", "xyz", "0\nzero atoms\n"),
+                         ("pdb-empty", "pdb", "")):
+        r = parse_separately(g, "str", text, None)
+        if r[0] == "ok" and len(r[1]) == 0:
+            out.append(("valid:zero-atoms:%s" % lab, g, text))
     out.append(("valid:xcfg:aux", "xcfg", XCFG_TEXT))
     out.append(("valid:pdffit:meta", "pdffit", PDFFIT_TEXT))
     out.append(("cif-none:data-only", "cif", "data_x\n_cell_length_a 3\n"))
@@ -378,10 +466,10 @@ def read_case(ck, case, tmp, lines, pending):
                     dict(rp, observed={"fresh_exception": repr(e2)}))
         else:
             oa, ob = observable(t), observable(fresh)
-            for attr in OBS_ATTRS:
-                if oa[attr] != ob[attr]:
-                    ck.fail("stale-attr:%s" % attr, "%s: after the successful read `%s` is %r, a new %s reading the same source has %r" % (
-                        where, attr, oa[attr], clsname, ob[attr]), dict(rp, observed={"attr": attr, "target": oa[attr], "fresh": ob[attr]}))
+            carried = set(sep[1].__dict__) if sep[0] == "ok" else set()
+            sgname = sep[2] if sep[0] == "ok" else (sep[1] if sep[0] == "none" else None)
+            for key, what, obs in attr_failures(before, oa, ob, carried, sgname, clsname):
+                ck.fail(key, "%s: %s" % (where, what), dict(rp, observed=obs))
             if oa["atoms"] != ob["atoms"] or oa["lattice"] != ob["lattice"]:
                 key = "stale-atoms:cif-none" if sep[0] == "none" else "stale-atoms:%s" % fmt
                 ck.fail(key, "%s: after the successful read the target has %d atoms in %s, a new %s has %d atoms in %s%s" % (
@@ -587,7 +675,7 @@ def replay_witnesses(ck):
     t.readStr(PDFFIT_TEXT, "pdffit")
     t.readStr(plain, "rawxyz")
     if t.pdffit != n.pdffit:
-        ck.fail("stale-attr:pdffit", "witness stale_pdffit: after reading a PDFfit text and then a rawxyz text the structure keeps pdffit scale=%r; a new "
+        ck.fail("stale-attr:pdffit:scale", "witness stale_pdffit: after reading a PDFfit text and then a rawxyz text the structure keeps pdffit scale=%r; a new "
                 "Structure has pdffit=%r" % (t.pdffit and t.pdffit.get("scale"), n.pdffit), {"kind": "witness", "witness": "stale_pdffit", "text": plain})
     else:
         ck.notes.append("Lean witness stale_pdffit no longer reproduces on the code")
